@@ -264,6 +264,8 @@ def wiring_real(p, inputs):
         from .model import validity_real
         validity_real(out)   # text loading is one of C02's producers
         tab = cooler.Cooler(out).pixels()[:]
+        if "x" not in tab.columns:
+            raise OracleFailure(f"cload pairs --field x=...: the loaded cooler has no column 'x' (columns {list(tab.columns)})")
         got = sorted(zip(tab["bin1_id"], tab["bin2_id"], tab["count"], tab["x"]))
         want = [(0, 2, 2, 8), (0, 5, 1, 2)]
         if [tuple(int(y) for y in g) for g in got] != want:
@@ -283,6 +285,8 @@ def wiring_real(p, inputs):
     from .model import validity_real
     validity_real(out)
     tab = cooler.Cooler(out).pixels()[:]
+    if "x" not in tab.columns:
+        raise OracleFailure(f"load --field x=...: the loaded cooler has no column 'x' (columns {list(tab.columns)})")
     got = [tuple(int(y) for y in g) for g in zip(tab["bin1_id"], tab["bin2_id"], tab["count"], tab["x"])]
     if got != [(0, 2, 5, 9), (1, 3, 4, 3)]:
         raise OracleFailure(f"load with count at column {a}, x at column {b}: pixels {got}, the file denotes [(0,2,5,9),(1,3,4,3)]")
